@@ -767,7 +767,7 @@ def rep_from_bits(s):
     return ("i" if sg == "1" else "u") + b
 
 
-def check_shift(ins, w, v1, v2, r, info, base, violations, stats, distinct):
+def check_shift(ins, w, v1, v2, r, info, base, violations, stats, distinct, model_line=None, impl_line=None):
     """point +/- quantity: the result is the point shifted by exactly the quantity, in the result's unit (whose scale and
     origin are judged from the I line).  Scope: the scaled operands and the result fit the common rep (conservative)."""
     stats["points"] += 1
@@ -779,6 +779,19 @@ def check_shift(ins, w, v1, v2, r, info, base, violations, stats, distinct):
     a, b = v1 * k1, v2 * k2
     want = a + b if w in (40, 41) else a - b
     scope = (in_range(Rc, v1) and in_range(Rc, v2) and in_range(Rc, a) and in_range(Rc, b) and in_range(Rc, want) and in_range(Rres, want))
+    if model_line is not None:
+        mm = kv(model_line)
+        g = rat_gcd(scale(ins["u1"]), scale(ins["u2"]))
+        if mm.get("scale") != f"{g.numerator}/{g.denominator}" or mm.get("rep") != Rres:
+            violations.append({"what": f"model and library disagree on the unit/rep of point +/- quantity: model {mm.get('scale')} {mm.get('rep')}, "
+                                       f"library scale {g} rep {Rres}", "class": "corr-shift-unit", "no_input": True,
+                               "broken": "correspondence: Point.shiftResultUnit", "rec": dict(base, kind="corr", op=w, model=model_line)})
+        if mm["val"] != "ub" and mm["val"] != r["val"] and (scope or mm["wrapped"] == "0"):
+            violations.append({"what": f"model and implementation differ for point +/- quantity (op {w}) at ({v1}, {v2})", "class": "corr-shift", "no_input": True,
+                               "broken": "correspondence: c09shift", "rec": dict(base, kind="corr", op=w, v1=v1, v2=v2, model=model_line, impl=impl_line)})
+        if scope and (mm["wrapped"] != "0" or mm["narrowed"] != "0" or mm["val"] == "ub"):
+            violations.append({"what": "oracle scope disagrees with the model's flags (point +/- quantity)", "class": "corr-scope-q", "no_input": True,
+                               "broken": "correspondence: scope of C09_point_plus_quantity", "rec": dict(base, kind="corr", op=w, v1=v1, v2=v2, model=model_line)})
     if not scope:
         stats["skipped_out_of_scope"] += 1
         return
@@ -1017,6 +1030,11 @@ def explore(prop, tier, seed, rng, wd):
                 opn = {10: "eq", 11: "ne", 12: "lt", 13: "le", 14: "gt", 15: "ge", 16: "sub", 19: "cmp3"}[m[2]]
                 midx[k] = len(mreq)
                 mreq.append(f"c09op {opn} {i['r1']} {i['r2']} {ukey(i['u1'])} {ukey(i['u2'])} {m[3]} {m[4]}")
+            elif m[0] == "PQ":
+                i = by_id[m[1]]
+                midx[k] = len(mreq)
+                opn = {40: "pq", 41: "qp", 42: "pmq"}[m[2]]
+                mreq.append(f"c09shift {opn} {i['r1']} {i['r2']} {ukey(i['u1'])} {i['u2']['sn']} {i['u2']['sd']} {m[3]} {m[4]}")
             elif m[0] == "PM" and m[2] == 30:
                 i = by_id[m[1]]
                 midx[k] = len(mreq)
@@ -1048,7 +1066,7 @@ def explore(prop, tier, seed, rng, wd):
             elif m[0] == "PM":
                 check_implicit(ins, m[2], m[3], r, a, mans[midx[k]] if k in midx else None, base, violations, stats, distinct)
             elif m[0] == "PQ":
-                check_shift(ins, m[2], m[3], m[4], r, qinfo.get(ins["id"]), base, violations, stats, distinct)
+                check_shift(ins, m[2], m[3], m[4], r, qinfo.get(ins["id"]), base, violations, stats, distinct, mans[midx[k]] if k in midx else None, a)
             elif m[0] == "PF":
                 check_point_float(ins, m[2], m[3], r, base, violations, stats, distinct)
             elif m[0] == "I":
